@@ -133,7 +133,7 @@ func runFileCase(c *vf.Ctx, env *fileEnv, fc *fileCase, r *rand.Rand) {
 		if curSeries >= 0 {
 			l := fc.Series[curSeries]
 			wit["series_index"] = curSeries
-			if l.rows() <= 4000 {
+			if l.rows() <= 300 {
 				wit["series"] = l
 			}
 		}
@@ -247,7 +247,7 @@ func verifyFile(c *vf.Ctx, env *fileEnv, fc *fileCase, f immutable.TSSPFile, rep
 	// ---- meta index items and chunk metas
 	items := int(f.MetaIndexItemNum())
 	c.Count("meta-index-items", int64(items))
-	if fc.Idx < 2 {
+	if fc.Cfg == baseCfg && (fc.Idx == 1 || fc.Idx == 7) {
 		c.Sample(map[string]any{"part": "file", "cfg": fc.Cfg, "series": len(ser), "rows_per_segment": fc.MaxRows, "segment_limit": fc.SegLimit,
 			"reopened_from_disk": fc.Reopen, "meta_index_items": items, "file_bytes": f.FileSize()})
 	}
